@@ -305,8 +305,19 @@ impl Backend for SimBackend {
             return Err(io::Error::new(io::ErrorKind::WouldBlock, "pipe full"));
         }
         let mut nbytes = buf.len().min(free);
+        let mut short_edge: Option<(u64, usize)> = None;
         if let Some(("short_write", arg)) = f {
+            let full = nbytes;
             nbytes = nbytes.min(1 + arg as usize).max(1).min(buf.len());
+            // a short write that the buffer's real free space does not explain stands for "the
+            // buffer was momentarily full": on a polled stream the writable edge follows at once
+            if nbytes < full {
+                if let Some((p, tok, _, w)) = s.poll {
+                    if w {
+                        short_edge = Some((p, tok));
+                    }
+                }
+            }
         }
         s.to_peer.extend_from_slice(&buf[..nbytes]);
         s.unread_by_peer += nbytes;
@@ -315,6 +326,9 @@ impl Backend for SimBackend {
         }
         let ep2 = s.endpoint.clone();
         st.deliveries.push(Delivery { endpoint: ep2, conn: sock, time: now, step, data: buf[..nbytes].to_vec() });
+        if let Some((p, tok)) = short_edge {
+            Net::push_event(&mut st, p, Ready { token: tok, readable: false, writable: true });
+        }
         drop(st);
         dsim::notify_all();
         Ok(nbytes)
